@@ -18,6 +18,8 @@ OBLIGATIONS = [
     "Pkgcore.C28.manifest_idempotent",
     "Pkgcore.C28.manifest_write_atomic",
     "Pkgcore.C28.manifest_failed_write_keeps_old",
+    "Pkgcore.C28.manifest_regen_describes_current",
+    "Pkgcore.C28.manifest_regen_history_independent",
     "Pkgcore.C28.manifest_inplace_write_counterexample",
     "Pkgcore.C28.manifest_whitespace_name_counterexample",
     "Pkgcore.C28.sortBy_eq_of_perm",
@@ -161,6 +163,33 @@ def gen_fetchables(rng, finding=None):
     return out
 
 
+def same_length_other(rng, cur):
+    """different bytes of exactly the same length (cur is not empty)"""
+    while True:
+        new = rng.randbytes(len(cur))
+        if new != cur:
+            return new
+
+
+def stale_manifest(rng, listing, fetch, thin, chfs):
+    """text of a Manifest as an earlier state of this very package would have it: the same names and sizes, the requested checksum types, but for
+    some entries the checksums of other content (rendered here, independently of pkgcore)"""
+    exp = expected_py(listing, fetch, thin)
+    out = []
+    for t in ("AUX", "DIST", "EBUILD", "MISC"):
+        for n in sorted(exp[t]):
+            if any(ch.isspace() for ch in n):
+                continue
+            ck = exp[t][n]
+            toks = [t, n, str(ck["size"])]
+            for c in sorted(k for k in ck if k != "size"):
+                w = hashlib.new(c).digest_size * 2
+                v = ck[c] if rng.random() < 0.4 else rng.getrandbits(4 * w)
+                toks += [c.upper(), "%0*x" % (w, v)]
+            out.append(" ".join(toks) + "\n")
+    return "".join(out)
+
+
 def list_dir(pkgdir, chfs):
     """independent scan of the package directory: (path relative with leading '/', is regular file, size, {chf: int})"""
     out = []
@@ -253,6 +282,7 @@ def run(ctx):
     try:
         reqs, meta = [], []
         ereqs, emeta = [], []
+        hreqs, hmeta = [], []
         ncases = ctx.n(200, 4000)
         for idx in range(ncases):
             r = rng.random()
@@ -264,14 +294,23 @@ def run(ctx):
             gen_dir(rng, pkgdir, finding)
             fetch = gen_fetchables(rng, finding)
             path = os.path.join(pkgdir, "Manifest")
-            if rng.random() < 0.5:                       # an older Manifest is there
+            r_old = rng.random()
+            old_kind = "none" if r_old >= 0.55 else "unrelated" if r_old < 0.3 else "earlier-state"
+            if r_old < 0.3:                              # an older Manifest is there
                 with open(path, "w") as f:
                     f.write("DIST old-1.tar 1 SHA512 %0128x\n" % 1)
+            elif r_old < 0.55:                           # ... one of an earlier state of the same package: right names and sizes, other checksums;
+                with open(path, "w", encoding="utf8") as f:  # written after the files (newer stamp), or stamped into the future / the past
+                    f.write(stale_manifest(rng, [l for l in list_dir(pkgdir, chfs) if l[0] != "/Manifest"], fetch, thin, chfs))
+                stamp = rng.choice([None, None, 2 ** 31 - 10, 10 ** 9])
+                if stamp is not None:
+                    os.utime(path, (stamp, stamp))
             old = read(path)
+            tmp_before = os.path.exists(os.path.join(pkgdir, ".update.Manifest"))
             listing = list_dir(pkgdir, chfs)
             listing = [l for l in listing if l[0] != "/Manifest"] + [l for l in listing if l[0] == "/Manifest"]
             case = {"dir": sorted(l[0] + ("" if l[1] else " (not a regular file)") for l in listing), "fetch": [[n, {k: str(v) for k, v in ck.items()}] for n, ck in fetch],
-                    "thin": thin, "chfs": chfs}
+                    "thin": thin, "chfs": chfs, "old_manifest": old_kind}
             # first update, traced, with shuffled listing / fetchables
             _c24.trace_on(root)
             ret1, err1 = do_update(path, fetch, tuple(chfs), thin, shuffle=True)
@@ -293,7 +332,8 @@ def run(ctx):
                     parsed = canon_parsed(digest.parse_manifest(path))
                 except (perrors.ParseChksumError, perrors.MetadataException) as e:
                     perr = "raise"
-            tmp_left = os.path.exists(os.path.join(pkgdir, ".update.Manifest"))
+            # (a stale temp file put there by the generator stays when no update had anything to write)
+            tmp_left = os.path.exists(os.path.join(pkgdir, ".update.Manifest")) and not (tmp_before and not ev1 and not ev2)
             reqs.append({"cmd": "c28.text", "thin": thin,
                          "scan": [dict(path=rel, reg=reg, **req_sums(size, sums)) for rel, reg, size, sums in listing],
                          "fetch": [dict(filename=n, **req_sums(ck["size"], {k: v for k, v in ck.items() if k != "size"})) for n, ck in fetch]})
@@ -302,13 +342,23 @@ def run(ctx):
             # ---- the package evolves: files/distfiles go, come or change, and the Manifest is regenerated in place
             if err1 is None and finding is None and text1 is not None:
                 fetch2 = list(fetch)
+
+                def state_req(lst, ft):
+                    return {"scan": [dict(path=rel, reg=reg, **req_sums(size, sums)) for rel, reg, size, sums in lst],
+                            "fetch": [dict(filename=n, **req_sums(ck["size"], {kk: v for kk, v in ck.items() if kk != "size"})) for n, ck in ft]}
+                hreq = {"cmd": "c28.regen", "thin": thin, "dir": pkgdir, "old": old, "hist": [state_req(listing, fetch)]}
+                hseen = [text1]
                 for rnd in range(rng.choice([1, 1, 2])):
                     covered = sorted(rel for rel, reg, _, _ in list_dir(pkgdir, ["size"]) if reg and not any(p in EXCLUDES for p in rel.split("/")))
                     # what the lines of an up-to-date Manifest of the current state name, in file order (computed, not read back)
                     e_now = expected_py(list_dir(pkgdir, ["size"]), fetch2, thin)
                     lines = ([("file", "/files/" + n) for n in sorted(e_now["AUX"])] + [("fetch", n) for n in sorted(e_now["DIST"])]
                              + [("file", "/" + n) for n in sorted(e_now["EBUILD"])] + [("file", "/" + n) for n in sorted(e_now["MISC"])])
-                    k = rng.choice(["remove-last-line", "remove-last-line", "remove-first-line", "remove-random", "add", "modify", "drop-last-fetchable", "remove-all"])
+                    k = rng.choice(["remove-last-line", "remove-last-line", "remove-first-line", "remove-random", "add", "modify", "drop-last-fetchable", "remove-all",
+                                    "rewrite-keep-stamp", "rewrite-keep-stamp", "rewrite-old-stamp", "rewrite-fresh-stamp", "replace-by-rename", "swap-two", "touch",
+                                    "manifest-stamp-future"])
+                    nonempty = [rel for rel in covered if os.path.getsize(os.path.join(pkgdir, rel.lstrip("/"))) > 0]
+                    how = None
                     if k in ("remove-last-line", "remove-first-line") and lines:
                         kind2, what = lines[-1] if k == "remove-last-line" else lines[0]
                         if kind2 == "fetch":
@@ -329,6 +379,58 @@ def run(ctx):
                         for rel in covered:
                             os.unlink(os.path.join(pkgdir, rel.lstrip("/")))
                         fetch2 = fetch2[:1]
+                    elif k in ("rewrite-keep-stamp", "rewrite-old-stamp", "rewrite-fresh-stamp", "replace-by-rename") and nonempty:
+                        # other content of the SAME length; the time stamps are kept (cp -p, rsync -t, tar x), set back, fresh, or the
+                        # file is replaced by a new inode carrying the old stamps
+                        rel = rng.choice(nonempty)
+                        p = os.path.join(pkgdir, rel.lstrip("/"))
+                        st = os.stat(p)
+                        with open(p, "rb") as f:
+                            cur = f.read()
+                        new = same_length_other(rng, cur)
+                        if k == "replace-by-rename":
+                            with open(p + ".incoming", "wb") as f:
+                                f.write(new)
+                            os.rename(p + ".incoming", p)
+                        else:
+                            with open(p, "r+b") as f:
+                                f.write(new)
+                        if k in ("rewrite-keep-stamp", "replace-by-rename"):
+                            os.utime(p, ns=(st.st_atime_ns, st.st_mtime_ns))
+                        elif k == "rewrite-old-stamp":
+                            back = rng.choice([1, 3600, 10 ** 7])
+                            os.utime(p, (st.st_mtime - back, st.st_mtime - back))
+                        how = {"file": rel, "size": len(cur), "mtime_delta_ns": os.stat(p).st_mtime_ns - st.st_mtime_ns}
+                    elif k == "swap-two" and len(covered) >= 2:
+                        # two covered files trade places (rename keeps their stamps); of equal size when there are two such
+                        by_size = {}
+                        for rel in nonempty:
+                            by_size.setdefault(os.path.getsize(os.path.join(pkgdir, rel.lstrip("/"))), []).append(rel)
+                        same = [v for v in by_size.values() if len(v) >= 2]
+                        a, b = rng.sample(rng.choice(same), 2) if same else rng.sample(covered, 2)
+                        pa, pb = os.path.join(pkgdir, a.lstrip("/")), os.path.join(pkgdir, b.lstrip("/"))
+                        os.rename(pa, pa + ".swap")
+                        os.rename(pb, pa)
+                        os.rename(pa + ".swap", pb)
+                        how = {"files": [a, b], "equal_size": bool(same)}
+                    elif k == "touch" and covered:
+                        # only the time stamp moves (forward or back): nothing to rewrite
+                        rel = rng.choice(covered)
+                        p = os.path.join(pkgdir, rel.lstrip("/"))
+                        d = rng.choice([-10 ** 6, -5, 5, 10 ** 6])
+                        st = os.stat(p)
+                        os.utime(p, (st.st_mtime + d, st.st_mtime + d))
+                        how = {"file": rel, "mtime_delta": d}
+                    elif k == "manifest-stamp-future" and nonempty and os.path.exists(path):
+                        # the Manifest carries a stamp from the future (clock skew, NFS); then a file is rewritten normally
+                        os.utime(path, (2 ** 31 - 10, 2 ** 31 - 10))
+                        rel = rng.choice(nonempty)
+                        p = os.path.join(pkgdir, rel.lstrip("/"))
+                        with open(p, "rb") as f:
+                            cur = f.read()
+                        with open(p, "r+b") as f:
+                            f.write(same_length_other(rng, cur))
+                        how = {"file": rel, "size": len(cur)}
                     before = read(path)
                     listing2 = list_dir(pkgdir, chfs)
                     listing2 = [l for l in listing2 if l[0] != "/Manifest"]
@@ -341,10 +443,20 @@ def run(ctx):
                     ereqs.append({"cmd": "c28.text", "thin": thin,
                                   "scan": [dict(path=rel, reg=reg, **req_sums(size, sums)) for rel, reg, size, sums in listing2],
                                   "fetch": [dict(filename=n, **req_sums(ck["size"], {kk: v for kk, v in ck.items() if kk != "size"})) for n, ck in fetch2]})
-                    emeta.append((dict(case, then=k, round=rnd, dir_now=sorted(l[0] for l in listing2 if l[1]), fetch_now=[n for n, _ in fetch2]),
+                    hreq["hist"].append(state_req(listing2, fetch2))
+                    hseen.append(text4)
+                    emeta.append((dict(case, then=k, how=how, round=rnd, dir_now=sorted(l[0] for l in listing2 if l[1]), fetch_now=[n for n, _ in fetch2]),
                                   thin, listing2, list(fetch2), before, ret4, err4, text4, parsed4))
+                hreqs.append(hreq)
+                hmeta.append((dict(case, history=[e[0]["then"] for e in emeta[len(emeta) - (len(hseen) - 1):]]), hseen))
             if idx % 50 == 49:
                 shutil.rmtree(os.path.join(root, "r%d" % idx), ignore_errors=True)
+        # the whole history through the model's `regen` (theorem manifest_regen_describes_current): the Manifest after every regeneration
+        for (case, hseen), rep in zip(hmeta, ctx.model(hreqs)):
+            ctx.count("history_len_%d" % len(hseen))
+            if rep != hseen:
+                bad_at = next(i for i, (x, y) in enumerate(zip(rep, hseen)) if x != y)
+                ctx.mismatch(case, f"Manifest after regeneration no. {bad_at} of the history differs from the model's regen (which depends on the current state only)")
         for (case, thin, listing2, fetch2, before, ret4, err4, text4, parsed4), rep in zip(emeta, ctx.model(ereqs)):
             ctx.case(case, True, key=repr(case))
             ctx.count("evolve_" + case["then"])
@@ -360,8 +472,12 @@ def run(ctx):
                 ctx.mismatch(case, f"Manifest after the change differs from the model's text for the new state ({len(text4 or '')} vs {len(rep['text'])} chars)")
             if parsed4 != exp2:
                 stale = {t: sorted(set(parsed4[t]) - set(exp2[t])) for t in exp2} if isinstance(parsed4, dict) else parsed4
+                missing = {t: sorted(set(exp2[t]) - set(parsed4[t])) for t in exp2} if isinstance(parsed4, dict) else None
+                wrong = {t: {n: sorted(c for c in exp2[t][n] if parsed4[t][n].get(c) != exp2[t][n][c]) for n in exp2[t] if n in parsed4[t] and parsed4[t][n] != exp2[t][n]}
+                         for t in exp2} if isinstance(parsed4, dict) else None
                 ctx.violation(case, f"after the package changed and the Manifest was regenerated it does not describe the package: entries that should not be there {stale}, "
-                              f"update() returned {ret4}")
+                              f"entries that are missing {missing}, entries whose recorded checksums are not those of the file now on disk "
+                              f"{ {t: w for t, w in (wrong or {}).items() if w} }, update() returned {ret4}")
             elif ret4 is not (before != text4):
                 ctx.violation(case, f"update() returned {ret4} but the file {'changed' if before != text4 else 'did not change'}")
         replies = ctx.model(reqs)
@@ -377,7 +493,7 @@ def run(ctx):
             ctx.count("thin" if thin else "thick")
             ctx.count("entries_%d" % min(nfiles, 10))
             ctx.count("chfs_%d" % (len(case["chfs"]) - 1))
-            ctx.count("old_manifest_" + ("present" if old is not None else "absent"))
+            ctx.count("old_manifest_" + case["old_manifest"])
             if ws:
                 ctx.count("class_whitespace_name")
             if finding == "baddir":
@@ -569,7 +685,9 @@ def run(ctx):
 LEVEL_TEXT = ("Kernel-checked Lean 4 theorems about a model of Manifest.update/_manifest_line/parse_manifest: for every directory listing and distfile set "
               "of the domain (any size, thick and thin) the generated text parses back to exactly the covered files' sizes and checksums, where 'covered' "
               "is specified on path components (manifest_parse_render, kindOf_classify); the text is invariant under every permutation of the listing and of "
-              "the fetchables (manifest_order_independent, sortBy_eq_of_perm); a second update performs no file operation (manifest_idempotent); every "
+              "the fetchables (manifest_order_independent, sortBy_eq_of_perm); a second update performs no file operation (manifest_idempotent); after any history of package states and any earlier Manifest, "
+              "regeneration leaves exactly the text of the current state, which parses back to the current files (manifest_regen_describes_current, "
+              "manifest_regen_history_independent: no time stamps, no memory of earlier hashing enter the result); every "
               "prefix of the write's operation list leaves the complete old or the complete new Manifest and touches nothing else (manifest_write_atomic; "
               "the pre-fix in-place write is proved non-atomic: manifest_inplace_write_counterexample). Tied to the code by differential runs on package "
               "directories built on disk with shuffled os.listdir, recorded os-level traces and real crashes.")
